@@ -280,3 +280,51 @@ fn k_try_fill_releases() {
     kani::cover!(k == 2);
     core::mem::forget(b);
 }
+
+// ---------------------------------------------------------------- failed initialisers that force a NEW chunk (C11)
+/// stand-in for the slow path (verified by Engine V; the real one costs CBMC > 50 GB): obtains one concrete 448-byte chunk
+/// through the REAL new_chunk and serves the request through the REAL fast path
+fn slow_one_chunk<const MIN_ALIGN: usize>(b: &Bump<MIN_ALIGN>, l: Layout) -> Option<NonNull<u8>> {
+    let d = NewChunkMemoryDetails { new_size_without_footer: 448, align: 16, size: 448 + FOOTER };
+    let f = unsafe { Bump::<MIN_ALIGN>::new_chunk(d, l, b.current_chunk_footer.get()) }?;
+    b.current_chunk_footer.set(f);
+    b.try_alloc_layout_fast(l)
+}
+
+#[kani::proof]
+#[kani::unwind(6)]
+#[kani::stub(Bump::alloc_layout_slow, slow_one_chunk)]
+fn k_try_fill_new_chunk() {
+    let b = mk_bump::<1>(64);
+    set_finger(&b, 8);                                   // 8 bytes left: a 4 x u64 slice does not fit
+    let old_chunk = b.current_chunk_footer.get();
+    let (old_finger, old_data) = (finger(&b), data(&b));
+    let r: Result<&mut [u64], u8> = b.alloc_slice_try_fill_with(4, |i| if i == 1 { Err(9) } else { Ok(i as u64) });
+    assert!(r == Err(9));
+    assert!(b.current_chunk_footer.get() != old_chunk, "a new chunk was needed");
+    let (f, d, a) = (finger(&b), data(&b), footer_addr(&b));
+    assert!(d <= f && f <= a, "C11/C01 the finger stays inside the chunk it belongs to");
+    assert!(b.chunk_capacity() == 448, "C11 the reservation of the failed fill is reusable");
+    assert!(unsafe { old_chunk.as_ref() }.ptr.get().as_ptr() as usize == old_finger && old_data == unsafe { old_chunk.as_ref() }.data.as_ptr() as usize, "C11 the previous chunk is untouched");
+    kani::cover!(true);
+    core::mem::forget(b);
+}
+
+#[kani::proof]
+#[kani::unwind(6)]
+#[kani::stub(Bump::alloc_layout_slow, slow_one_chunk)]
+fn k_rewind_new_chunk() {
+    let b = mk_bump::<1>(64);
+    set_finger(&b, 8);
+    let old_chunk = b.current_chunk_footer.get();
+    let old_finger = finger(&b);
+    let r: Result<&mut [u64; 4], u8> = b.alloc_try_with(|| Err(7));
+    assert!(r == Err(7));
+    assert!(b.current_chunk_footer.get() != old_chunk);
+    assert!(b.chunk_capacity() == 448, "C11 the chunk obtained for the failed value is completely free again");
+    assert!(unsafe { old_chunk.as_ref() }.ptr.get().as_ptr() as usize == old_finger, "C11/C20 the previous chunk is untouched");
+    let r2: Result<&mut [u64; 4], AllocOrInitError<u8>> = b.try_alloc_try_with(|| Err(7));
+    assert!(r2.is_err() && b.chunk_capacity() == 448);
+    kani::cover!(true);
+    core::mem::forget(b);
+}
